@@ -148,6 +148,7 @@ def _thread_chain(caller, start, tracked):
     and a switch on the discriminant of a tracked value is replaced by a goto to the arm it selects.  Returns the
     index of the first block of the specialised chain, or None when nothing could be resolved."""
     blocks = caller["blocks"]
+    n0 = len(blocks)
     tracked = dict(tracked)
     discr = {}
     first = None
@@ -164,7 +165,10 @@ def _thread_chain(caller, start, tracked):
             first = idx
         if prev is not None:
             pt = blocks[prev]["term"]
-            pt["target"] = idx
+            if pt["k"] == "switch":
+                pt["targets"] = [[pt["targets"][0][0], idx]]
+            else:
+                pt["target"] = idx
         prev = idx
         return idx
 
@@ -216,7 +220,16 @@ def _thread_chain(caller, start, tracked):
                     for v, b in t["targets"]:
                         if v == vals[0]:
                             tgt = b
-                    emit(copy.deepcopy(blk["stmts"]), {"k": "goto", "target": tgt})
+                    # keep the test as a one-armed switch (other arm: unreachable) so that the fact "x is Variant"
+                    # is still carried by an edge on this specialised path
+                    blocks.append({"cleanup": False, "stmts": [], "term": {"k": "unreachable"}, "threaded": True})
+                    dead = len(blocks) - 1
+                    nt = {"k": "switch", "on": copy.deepcopy(t["on"]), "on_ty": t.get("on_ty"), "targets": [[vals[0], tgt]], "otherwise": dead,
+                          "span": t.get("span"), "threaded_switch": True}
+                    if first is None:
+                        # the unreachable helper block must not become the chain head
+                        pass
+                    emit(copy.deepcopy(blk["stmts"]), nt)
                     gained = True
                     cur = tgt
                     continue
@@ -231,13 +244,14 @@ def _thread_chain(caller, start, tracked):
         break
     if not gained:
         # drop the useless clones
-        if first is not None:
-            del blocks[first:]
+        del blocks[n0:]
         return None
     # link the end of the specialised chain back into the original code
     if prev is not None and cur is not None:
         pt = blocks[prev]["term"]
-        if pt["k"] != "goto" or pt["target"] != cur:
+        if pt["k"] == "switch":
+            pt["targets"] = [[pt["targets"][0][0], cur]]
+        elif pt["k"] != "goto" or pt["target"] != cur:
             # last emitted block still points at an original successor: that is `cur`
             pt["target"] = cur
     return first
